@@ -241,7 +241,18 @@ func observeDir(m fstest.MapFS, prev map[int]fileView, ents []dent) (string, map
 		if !e.present || !ok {
 			continue
 		}
-		match, chain, mreq, keysame, reqsame := false, false, false, false, false
+		match, chain, mreq, keysame, reqsame, refl := false, false, false, false, false, false
+		if v.crt != nil && v.crt.Raw != nil {
+			// does the certificate show the subject and the extension of the entity's current configuration?
+			want := fmt.Sprintf("e%d v%d", i, e.subj)
+			hasExt := false
+			for _, x := range v.crt.Extensions {
+				if x.Id.String() == fmt.Sprintf("1.2.3.%d", e.vis) {
+					hasExt = true
+				}
+			}
+			refl = v.crt.Subject.CommonName == want && hasExt
+		}
 		if v.crt != nil && v.key != nil && v.crt.PublicKey != nil {
 			if pk, ok := v.crt.PublicKey.(pubEq); ok {
 				match = pk.Equal(v.key.Public())
@@ -270,7 +281,7 @@ func observeDir(m fstest.MapFS, prev map[int]fileView, ents []dent) (string, map
 			keysame = v.key != nil && p.key != nil && bytes.Equal(v.keyDER, p.keyDER)
 			reqsame = v.req != nil && p.req != nil && bytes.Equal(v.reqDER, p.reqDER)
 		}
-		sb = append(sb, fmt.Sprintf("(%d, [%s;%s;%s;%s;%s;%s;%s;%s;%s])", i, bs(v.hash), bs(v.crt != nil), bs(v.key != nil), bs(v.req != nil), bs(match), bs(chain), bs(mreq), bs(keysame), bs(reqsame)))
+		sb = append(sb, fmt.Sprintf("(%d, [%s;%s;%s;%s;%s;%s;%s;%s;%s;%s])", i, bs(v.hash), bs(v.crt != nil), bs(v.key != nil), bs(v.req != nil), bs(match), bs(chain), bs(mreq), bs(keysame), bs(reqsame), bs(refl)))
 	}
 	// the model lists entities in the order they were added; ours is by index, which is the order of addition
 	sort.Slice(sb, func(a, b int) bool {
